@@ -51,6 +51,10 @@ def stats_equal(a, b):
 def base_cfg(rng, var):
     shape = rng.choice([(3, 3, 1), (2, 4, 1), (4, 3, 1), (3, 2, 2)])
     k = {"int": 20, "ext": 20, "s0": 20, "s_sigma_rel": 0.1 if var else 0}
+    if var and shape[2] == 1 and rng.random() < 0.4:
+        # per-vial shelf coefficients given as an array (the SAME array object is handed to every object built from this configuration:
+        # the configuration must not be modified by building or running)
+        k["s0"] = np.linspace(15.0, 25.0, int(np.prod(shape)))
     prog = dict(start=0, end=-40, rate=0.1, holds=[], t_tot=1500.0, dt=10.0)
     return dict(arr=rng.choice(["square", "hexagonal"]), shape=shape, k=k, dt=10.0, T_init=None,
                 over={"snowfall_parameters": {"vial_arrangement": "square"}}, initIce="indirect", seed=rng.randint(0, 50), seed_v=7, prog=prog, cnTemp=None, thr=0.9)
